@@ -9,7 +9,7 @@ F7_WHAT = "empty control-point list computed on buffers that hold a previous pat
 class C16(Property):
     id = "C16"
     lean_module = "RosuModel.Props.C16Full"   # imports Props/C16Surplus.lean (→ Props/C16Exact.lean → Props/C16.lean) and Props/C16Ieee.lean; all in namespace Rosu.C16
-    theorem_modules = ['RosuModel.Props.C16Surplus', 'RosuModel.Props.C16Ieee', 'RosuModel.Props.C16IeeeLen', 'RosuModel.Props.C16IeeeAdj', 'RosuModel.Props.C16IeeeAdjWitness', 'RosuModel.Props.C16IeeeBezierDiverge', 'RosuModel.Props.C16IeeeCut', 'RosuModel.Props.C16IeeeCut2']   # files whose top-level theorems are all audited
+    theorem_modules = ['RosuModel.Props.C16Surplus', 'RosuModel.Props.C16Ieee', 'RosuModel.Props.C16IeeeLen', 'RosuModel.Props.C16IeeeAdj', 'RosuModel.Props.C16IeeeAdjWitness', 'RosuModel.Props.C16IeeeBezierDiverge', 'RosuModel.Props.C16IeeeCut', 'RosuModel.Props.C16IeeeCut2', 'RosuModel.Props.C16LinearRef']   # files whose top-level theorems are all audited
     namespace = "Rosu.C16"
     design_ref = "5.16"
     level_text = (
@@ -43,7 +43,9 @@ class C16(Property):
         "Model tied to the code bit-for-bit on every run; IEEE finiteness, monotonicity of what calculate_length returns after a cut / extension, and the float-level geometry are evaluated on the real code by an "
         "oracle written from the property text.")
     technique = "Lean 4 proof (case analysis of the mirrored control flow, generic arithmetic) + bit-exact differential correspondence"
-    required_theorems = ["cut_param_range_float", "cut_param_nonneg_float", "cut_end_point_near_segment_float", "sqrt_len_err",
+    required_theorems = ["calculatePath_linear_eq_ref", "refLinearNaturalIdx_eq", "ref_eq_positions", "ref_single_segment", "ref_single_segment_nan", "ref_typed_last_no_extra",
+                         "ref_length_le", "ref_length_le_false", "calculatePath_linear_positions", "calculatePath_typed_last_no_extra", "calculatePath_nan_joint_float32",
+                         "cut_param_range_float", "cut_param_nonneg_float", "cut_end_point_near_segment_float", "sqrt_len_err",
                          "cut_end_point_err_float32", "cut_end_point_near_segment", "ext_end_point_err_float32", "ext_end_point_near_ray", "cutPoint_eq_reproject",
                          "bsplineLoop_diverges_float32", "curve_new_diverges_float32", "curve_new_never_ok_float32", "stuck_not_flat", "stuck_left_half", "stuck_beyond_decode_range",
                          "calculateLength_some", "calculateLength_total", "lengths_head_zero", "dist_exact", "cut_shape",
@@ -66,6 +68,13 @@ class C16(Property):
                          "cumLens_eq_runSums", "runSums_mono", "runSums_mono_nonneg", "lengths_monotone_ieee", "lengths_monotone_float",
                          "lengths_monotone_float_nonneg", "natLens_monotone_ieee", "natLens_monotone_float"]
     partial_theorems = {
+        "calculatePath_linear_eq_ref": "Props/C16LinearRef.lean (sixth session, wave 10): THE HARNESS ORACLE'S REFERENCE IS THE MODEL. `refLinearNatural` is a transcription into Lean of the function "
+            "`ref_linear_natural` that the Rust harness uses as its independent reference for the unadjusted path of all-linear control-point lists (segments joined, the joint once, a type on the last point "
+            "opens no segment; refLinearNaturalIdx_eq: the index-based loop equals the structural recursion). calculatePath_linear_eq_ref: for AllLinear control points, any mode, fuel and scratch buffers, every "
+            "Scalar, `calculatePath` returns exactly refLinearNatural points and optimized_len = 0 — full strength. Corollaries: ref_eq_positions / calculatePath_linear_positions (with no NaN joint the path is "
+            "the list of all control-point positions), ref_typed_last_no_extra / calculatePath_typed_last_no_extra (a path type on the LAST control point adds no vertex: the seeded defect C16-o, unconditional). "
+            "FOUND FALSE as first asked: |path| ≤ |points| fails for a typed joint with a NaN coordinate (NaN ≠ NaN, so the joint stays twice): ref_length_le_false, calculatePath_nan_joint_float32 (kernel, "
+            "Float32: 3 vertices for 2 control points) — outside the property's quantifier (finite coordinates); ref_length_le carries the reflexivity hypothesis",
         "cut_end_point_err_float32 / ext_end_point_err_float32 / cut_end_point_near_segment / ext_end_point_near_ray (WHERE the new end point lies, in IEEE single precision)":
             "sixth session, Props/C16IeeeCut.lean over Lemmas/FloatErr32.lean (the error-bound layer instantiated at Float32: toRat32, add / sub / mul / div with |delta| <= 2^-24, Rnd32): the end point calculate_length "
             "computes is cutPoint = p_k + ((p_{k+1} - p_k) * (1/ell)) * t per coordinate - five f32 roundings - with ell the f32 segment length the code used (a parameter: sqrt is not covered by the error layer) and "
